@@ -48,6 +48,10 @@ type CachePlan struct {
 	KeepBias  int            `json:"keep_bias"`
 	DiskChunk int            `json:"disk_chunk"`
 	Seq       bool           `json:"sequential"` // single task: exact oracle
+	// Ent (IPFIX): an element file with enterprise-specific twins (PEN 29305) of
+	// the version elements is installed; version v+100 is version v with the
+	// enterprise number of its first (non-scope) field set - same ids, same lengths
+	Ent bool `json:"ent,omitempty"`
 	Collide   bool           `json:"collide"`    // keys 0 and 1 collide under 32-bit FNV-1
 }
 
@@ -61,6 +65,12 @@ var verElems = []uint16{70, 71, 72, 73, 74, 75, 76, 77, 78, 79, 90, 95, 104, 210
 // consecutive versions (2k, 2k+1) use the same elements and differ only in
 // the field lengths; other pairs differ in the elements as well.
 func versionTemplate(id uint16, v int) model.Template {
+	if v > 100 {
+		t := versionTemplate(id, v-100)
+		t.Fields = append([]model.FieldSpec(nil), t.Fields...)
+		t.Fields[0].PEN = entPEN
+		return t
+	}
 	e := v / 2
 	if id == optionsShapeID {
 		// an options template: five one-octet scope fields (a specifier slice
@@ -90,26 +100,31 @@ func versionTemplate(id uint16, v int) model.Template {
 	return model.Template{ID: id, Fields: []model.FieldSpec{{ID: verElems[e%len(verElems)], Len: uint16(a)}, {ID: verElems[(e/len(verElems)+e+7)%len(verElems)], Len: uint16(recLen - a)}}}
 }
 
+// entPEN: the enterprise number of the twins of the version elements.
+const entPEN = 29305
+
 // optionsShapeID: keys with this template id use options templates.
 const optionsShapeID = 300
 
 // versionOfFields identifies the version from the complete specifier list
 // (scope fields first).
-func versionOfFields(ids []uint16, lens []uint16, id uint16) int {
-	for v := 1; v <= 40; v++ {
-		t := versionTemplate(id, v)
-		all := t.AllFields()
-		if len(ids) != len(all) || len(lens) != len(all) {
-			continue
-		}
-		same := true
-		for i := range all {
-			if ids[i] != all[i].ID || lens[i] != all[i].Len {
-				same = false
+func versionOfFields(ids []uint16, lens []uint16, pens []uint32, id uint16) int {
+	for _, base := range []int{0, 100} {
+		for v := base + 1; v <= base+40; v++ {
+			t := versionTemplate(id, v)
+			all := t.AllFields()
+			if len(ids) != len(all) || len(lens) != len(all) || len(pens) != len(all) {
+				continue
 			}
-		}
-		if same {
-			return v
+			same := true
+			for i := range all {
+				if ids[i] != all[i].ID || lens[i] != all[i].Len || pens[i] != all[i].PEN {
+					same = false
+				}
+			}
+			if same {
+				return v
+			}
 		}
 	}
 	return -1
@@ -200,6 +215,35 @@ func (c *cacheAPI) announce(k CacheKeyPlan, v int, seq uint32) {
 	}
 }
 
+// foreign sends template records without fields from an address that owns no key.
+func (c *cacheAPI) foreign(keys []CacheKeyPlan, who, what int, seq uint32) {
+	ip := net.IP{203, 0, 113, byte(200 + who%50)}
+	for _, k := range keys {
+		if net.IP(k.Addr).Equal(ip) {
+			return
+		}
+	}
+	odd := []uint16{2, 3, 0, 1, 4, 255, keys[who%len(keys)].ID}
+	id := odd[what%len(odd)]
+	rec := []byte{byte(id >> 8), byte(id), 0, 0}
+	setID := uint16(2)
+	if what%2 == 1 {
+		setID = 3
+		rec = append(rec, 0, 0)
+	}
+	if id == 3 {
+		setID, rec = 3, []byte{0, 3, 0, 0, 0, 0}
+	}
+	var body []byte
+	if c.proto == pIPFIX {
+		body = ipfixMsg(seq, ipfixSet(setID, rec))
+		ipfix.NewDecoder(ip, body).Decode(c.ic)
+	} else {
+		body = nf9Msg(seq, ipfixSet(setID-2, rec))
+		netflow9.NewDecoder(ip, body).Decode(c.nc)
+	}
+}
+
 // lookup decodes a 12-octet record for the key and reports which version of
 // the template was applied (0: unknown template).
 func (c *cacheAPI) lookup(k CacheKeyPlan, seq uint32) (int, string) {
@@ -207,6 +251,7 @@ func (c *cacheAPI) lookup(k CacheKeyPlan, seq uint32) (int, string) {
 	body := flowMsgBytes(c.proto, []model.Set{{Kind: model.SetData, TplID: k.ID, Recs: []model.Record{rec}}}, nil, seq)
 	ip := net.IP(append([]byte(nil), k.Addr...))
 	var ids, lens []uint16
+	var pens []uint32
 	var errs string
 	n := 0
 	vlen := func(v interface{}) uint16 {
@@ -226,6 +271,7 @@ func (c *cacheAPI) lookup(k CacheKeyPlan, seq uint32) (int, string) {
 				for _, f := range m.DataSets[0] {
 					ids = append(ids, f.ID)
 					lens = append(lens, vlen(f.Value))
+					pens = append(pens, f.EnterpriseNo)
 				}
 			}
 		}
@@ -240,6 +286,7 @@ func (c *cacheAPI) lookup(k CacheKeyPlan, seq uint32) (int, string) {
 				for _, f := range m.DataSets[0] {
 					ids = append(ids, f.ID)
 					lens = append(lens, vlen(f.Value))
+					pens = append(pens, 0)
 				}
 			}
 		}
@@ -253,9 +300,9 @@ func (c *cacheAPI) lookup(k CacheKeyPlan, seq uint32) (int, string) {
 	if n != 1 {
 		return -1, fmt.Sprintf("%d records decoded from one 12-octet record", n)
 	}
-	v := versionOfFields(ids, lens, k.ID)
+	v := versionOfFields(ids, lens, pens, k.ID)
 	if v < 0 {
-		return -1, fmt.Sprintf("decoded with fields %v of lengths %v, not a version of this key", ids, lens)
+		return -1, fmt.Sprintf("decoded with fields %v of lengths %v (enterprise numbers %v), not a version of this key", ids, lens, pens)
 	}
 	return v, ""
 }
@@ -273,20 +320,23 @@ func (c *cacheAPI) peer(k CacheKeyPlan) (int, string) {
 		return 0, err.Error()
 	}
 	var ids, lens []uint16
+	var pens []uint32
 	for _, f := range tr.ScopeFieldSpecifiers {
 		ids = append(ids, f.ElementID)
 		lens = append(lens, f.Length)
+		pens = append(pens, f.EnterpriseNo)
 	}
 	for _, f := range tr.FieldSpecifiers {
 		ids = append(ids, f.ElementID)
 		lens = append(lens, f.Length)
+		pens = append(pens, f.EnterpriseNo)
 	}
 	if tr.TemplateID != k.ID || int(tr.FieldCount) != len(ids) || int(tr.ScopeFieldCount) != len(tr.ScopeFieldSpecifiers) {
 		return -1, fmt.Sprintf("peer lookup returned template id %d with %d/%d fields (%d/%d scope)", tr.TemplateID, tr.FieldCount, len(ids), tr.ScopeFieldCount, len(tr.ScopeFieldSpecifiers))
 	}
-	v := versionOfFields(ids, lens, k.ID)
+	v := versionOfFields(ids, lens, pens, k.ID)
 	if v < 0 {
-		return -1, fmt.Sprintf("peer lookup returned fields %v lens %v: not an announced version", ids, lens)
+		return -1, fmt.Sprintf("peer lookup returned fields %v lens %v enterprise numbers %v: not an announced version", ids, lens, pens)
 	}
 	return v, ""
 }
@@ -305,9 +355,15 @@ type dumpFile struct {
 			Template struct {
 				TemplateID           uint16
 				FieldCount           uint16
-				FieldSpecifiers      []struct{ ElementID, Length uint16 }
+				FieldSpecifiers []struct {
+					ElementID, Length uint16
+					EnterpriseNo      uint32
+				}
 				ScopeFieldCount      uint16
-				ScopeFieldSpecifiers []struct{ ElementID, Length uint16 }
+				ScopeFieldSpecifiers []struct {
+					ElementID, Length uint16
+					EnterpriseNo      uint32
+				}
 			}
 			Timestamp int64
 		}
@@ -337,15 +393,18 @@ func dumpVersions(b []byte, keys []CacheKeyPlan) ([]int, string) {
 			continue
 		}
 		var ids, lens []uint16
+		var pens []uint32
 		for _, f := range e.Template.ScopeFieldSpecifiers {
 			ids = append(ids, f.ElementID)
 			lens = append(lens, f.Length)
+			pens = append(pens, f.EnterpriseNo)
 		}
 		for _, f := range e.Template.FieldSpecifiers {
 			ids = append(ids, f.ElementID)
 			lens = append(lens, f.Length)
+			pens = append(pens, f.EnterpriseNo)
 		}
-		v := versionOfFields(ids, lens, e.Template.TemplateID)
+		v := versionOfFields(ids, lens, pens, e.Template.TemplateID)
 		if v < 0 {
 			out[i] = -1
 		} else if e.Template.TemplateID != k.ID {
@@ -365,6 +424,15 @@ func runCache(p *CachePlan, ch *simrt.Choices, trace bool) *cacheRun {
 	ch.KeepBias = p.KeepBias
 	sim.FS.Chunk = p.DiskChunk
 	resetGlobals(&NodeCfg{CapUDP: 1, CapMQ: 1, CapMirror: 1})
+	if p.Ent {
+		// through the real load path: the registry plus enterprise twins of the version elements
+		im := model.Snapshot()
+		for _, id := range verElems {
+			im[model.ElemKey{PEN: entPEN, ID: id}] = model.Element{PEN: entPEN, ID: id, Name: fmt.Sprintf("verifTwin%d", id), Type: "octetArray"}
+		}
+		sim.FS.Put(confDir+"/ipfix.elements", model.ElementsYAML(im))
+		ipfix.LoadExtElements(confDir)
+	}
 	api := &cacheAPI{proto: p.Proto}
 	if p.Proto == pIPFIX {
 		api.ic = ipfix.GetCache("/none")
@@ -390,6 +458,14 @@ func runCache(p *CachePlan, ch *simrt.Choices, trace bool) *cacheRun {
 					} else {
 						simrt.Sleep(1100 * time.Millisecond)
 					}
+					simrt.Yield(-40)
+					continue
+				}
+				if op.Kind == "foreign" {
+					// an exporter that owns none of the keys sends template records
+					// with unusual ids and no fields (set ids, ids below 256, ids of the
+					// keys): whatever the cache makes of them, the keys are not its
+					api.foreign(p.Keys, op.Key, op.Ver, uint32(ti*1000+oi))
 					simrt.Yield(-40)
 					continue
 				}
@@ -610,6 +686,7 @@ func genCachePlan(seed int64, prop, tier string) *CachePlan {
 	if p.Seq {
 		nTasks = 1
 	}
+	p.Ent = p.Proto == pIPFIX && r.Intn(3) == 0
 	nextVer := 1
 	sleepy := r.Intn(3) == 0 // a third of the histories spread over several simulated seconds
 	lastVer := map[int]int{}
@@ -629,7 +706,15 @@ func genCachePlan(seed int64, prop, tier string) *CachePlan {
 			switch {
 			case role < 6: // decoder
 				if r.Intn(3) == 0 {
-					if v, ok := lastVer[k]; ok && p.Keys[k].ID == optionsShapeID && v%3 == 0 && v+2 <= 38 && r.Intn(2) == 0 {
+					if v, ok := lastVer[k]; ok && p.Ent && r.Intn(3) == 0 {
+						// the same definition with the enterprise number of one element changed
+						nv := v + 100
+						if v > 100 {
+							nv = v - 100
+						}
+						op = CacheOp{Kind: "announce", Key: k, Ver: nv}
+						lastVer[k] = nv
+					} else if v, ok := lastVer[k]; ok && v < 100 && p.Keys[k].ID == optionsShapeID && v%3 == 0 && v+2 <= 38 && r.Intn(2) == 0 {
 						// the same options template with one scope element changed
 						op = CacheOp{Kind: "announce", Key: k, Ver: v + 2}
 						lastVer[k] = v + 2
@@ -661,6 +746,9 @@ func genCachePlan(seed int64, prop, tier string) *CachePlan {
 			}
 			if nextVer > 38 && op.Kind == "announce" {
 				op.Kind = "data"
+			}
+			if r.Intn(12) == 0 {
+				ops = append(ops, CacheOp{Kind: "foreign", Key: r.Intn(50), Ver: r.Intn(14)})
 			}
 			if sleepy && r.Intn(6) == 0 {
 				ops = append(ops, CacheOp{Kind: "sleep", Ver: []int{0, 0, 0, 3700, 7300, 90000, 40 * 86400}[r.Intn(7)]})
